@@ -692,7 +692,12 @@ func TestVerif_C03(t *testing.T) {
 	sb.WriteString("Definition c03_role_mismatches := Eval vm_compute in filter (fun i => (2 <=? c03_path_of_case i) && (c03_path_of_case i <? 4) && Nat.eqb (c03_cfg_of_case i) 0) c03_all_mismatches.\nPrint c03_role_mismatches.\n")
 	sb.WriteString("Definition c03_aws_mismatches := Eval vm_compute in filter (fun i => (4 <=? c03_path_of_case i) && Nat.eqb (c03_cfg_of_case i) 0) c03_all_mismatches.\nPrint c03_aws_mismatches.\n")
 	sb.WriteString("Definition c03_config_mismatches := Eval vm_compute in filter (fun i => negb (Nat.eqb (c03_cfg_of_case i) 0)) c03_all_mismatches.\nPrint c03_config_mismatches.\n")
-	sb.WriteString("Definition c03_ncases := Eval vm_compute in length " + allCases + ".\nPrint c03_ncases.\n")
+	// (a unary numeral of the total overflows coqc's stack in the thorough tier: sum the shard lengths in N)
+	var lens []string
+	for _, n := range shardNames {
+		lens = append(lens, "N.of_nat (length "+n+")")
+	}
+	sb.WriteString("Definition c03_ncases := Eval vm_compute in (" + strings.Join(lens, " + ") + ")%N.\nPrint c03_ncases.\n")
 	sb.WriteString("Definition c03_nconfigs := Eval vm_compute in length configs.\nPrint c03_nconfigs.\n")
 	if err := ioutil.WriteFile(filepath.Join(verifOut(), "CasesC03.v"), []byte(sb.String()), 0644); err != nil {
 		t.Fatal(err)
